@@ -171,11 +171,18 @@ func (g *c03Gen) pickLit(t *c03Ty) *big.Int {
 	if t.kind == 1 {
 		maxBits = t.w - 1
 	}
-	if maxBits > 15 {
-		maxBits = 15
-	}
 	if t.kind == 0 {
 		return big.NewInt(int64(g.r.Intn(2)))
+	}
+	// literals at the boundaries of the compiler's 32/64-bit constant
+	// containers and beyond 64 bits (for types that can hold them)
+	if maxBits >= 34 && g.r.Intn(4) == 0 {
+		if ws := c03WideLits(maxBits); len(ws) > 0 {
+			return ws[g.r.Intn(len(ws))]
+		}
+	}
+	if maxBits > 15 {
+		maxBits = 15
 	}
 	if maxBits <= 0 {
 		return big.NewInt(0)
@@ -190,6 +197,103 @@ func (g *c03Gen) pickLit(t *c03Ty) *big.Int {
 		v = 0
 	}
 	return big.NewInt(v)
+}
+
+// c03WideLits: 2^31, 2^32, 2^32+1, 2^63, 2^64, 2^64+1, 2^64+8, 2^65, 3*2^64, 2^64+3 that fit maxBits bits.
+func c03WideLits(maxBits int) []*big.Int {
+	var out []*big.Int
+	p := func(k uint, add int64) *big.Int {
+		v := new(big.Int).Lsh(big.NewInt(1), k)
+		return v.Add(v, big.NewInt(add))
+	}
+	for _, v := range []*big.Int{p(31, 0), p(32, 0), p(32, 1), p(63, 0), p(64, 0), p(64, 1), p(64, 8), p(65, 0),
+		new(big.Int).Mul(big.NewInt(3), p(64, 0)), p(64, 3)} {
+		if v.BitLen() <= maxBits {
+			out = append(out, v)
+		}
+	}
+	return out
+}
+
+// c03WideLitFamily: + - * of a run-time value with every boundary literal, on
+// types wider than 64 bits (every run, fixed).
+func c03WideLitFamily() []*c03Prog {
+	var out []*c03Prog
+	for _, k := range []struct{ kind, w int }{{2, 65}, {2, 100}, {1, 72}} {
+		g := &c03Gen{r: NewRNG(uint64(0x71DE + k.w)), small: true}
+		g.p = &c03Prog{names: map[string]*c03Var{}, class: "widelitfamily"}
+		g.pool = []*c03Ty{c03Bool}
+		t := g.scalarTy(k.kind, k.w)
+		maxBits := k.w
+		if k.kind == 1 {
+			maxBits--
+		}
+		f := &c03Func{name: "main"}
+		a, b := g.newVar("a"), g.newVar("b")
+		f.params, f.ptys = []*c03Var{a, b}, []*c03Ty{t, t}
+		ev := func(v *c03Var) *c03Expr { return &c03Expr{tag: c03EVar, v: v} }
+		var rets []*c03Expr
+		for i, l := range c03WideLits(maxBits) {
+			if l.BitLen() < 64 {
+				continue
+			}
+			lit := &c03Expr{tag: c03ELit, t: t, n: l}
+			op := []int{c03Mul, c03Add, c03Sub}[i%3]
+			e := &c03Expr{tag: c03EBin, op: op, t: t, a: ev(a), b: lit}
+			if i%2 == 1 && op != c03Sub {
+				e = &c03Expr{tag: c03EBin, op: op, t: t, a: lit, b: ev(b)}
+			}
+			rets = append(rets, e)
+			if op != c03Mul {
+				rets = append(rets, &c03Expr{tag: c03EBin, op: c03Mul, t: t, a: ev(b), b: &c03Expr{tag: c03ELit, t: t, n: l}})
+			}
+		}
+		for range rets {
+			f.rets = append(f.rets, t)
+		}
+		f.body = []*c03Stmt{{tag: c03SReturn, es: rets}}
+		g.p.funcs = []*c03Func{f}
+		out = append(out, g.p)
+	}
+	return out
+}
+
+// c03LitOpFamily: every binary operator with a small literal operand (its
+// wires are a 32-bit container) on types WIDER than the container, run-time
+// operand with high bits set among the boundary inputs (every run, fixed).
+func c03LitOpFamily() []*c03Prog {
+	var out []*c03Prog
+	for _, k := range []struct{ kind, w int }{{2, 40}, {1, 64}, {2, 64}, {2, 72}} {
+		g := &c03Gen{r: NewRNG(uint64(0x117 + k.w)), small: true}
+		g.p = &c03Prog{names: map[string]*c03Var{}, class: "litopfamily"}
+		g.pool = []*c03Ty{c03Bool}
+		t := g.scalarTy(k.kind, k.w)
+		f := &c03Func{name: "main"}
+		a, b := g.newVar("a"), g.newVar("b")
+		f.params, f.ptys = []*c03Var{a, b}, []*c03Ty{t, t}
+		ev := func(v *c03Var) *c03Expr { return &c03Expr{tag: c03EVar, v: v} }
+		lits := []int64{255, 5, 1, 4096}
+		var rets []*c03Expr
+		for op := c03Add; op <= c03Ne; op++ {
+			l := &c03Expr{tag: c03ELit, t: t, n: big.NewInt(lits[op%len(lits)])}
+			rets = append(rets, &c03Expr{tag: c03EBin, op: op, t: t, a: ev(a), b: l})
+			if g.litAllowed(op, t, true) {
+				l2 := &c03Expr{tag: c03ELit, t: t, n: big.NewInt(lits[(op+1)%len(lits)])}
+				rets = append(rets, &c03Expr{tag: c03EBin, op: op, t: t, a: l2, b: ev(b)})
+			}
+		}
+		for _, e := range rets {
+			if c03IsCmp(e.op) {
+				f.rets = append(f.rets, c03Bool)
+			} else {
+				f.rets = append(f.rets, t)
+			}
+		}
+		f.body = []*c03Stmt{{tag: c03SReturn, es: rets}}
+		g.p.funcs = []*c03Func{f}
+		out = append(out, g.p)
+	}
+	return out
 }
 
 func (g *c03Gen) lit(t *c03Ty) *c03Expr { return &c03Expr{tag: c03ELit, t: t, n: g.pickLit(t)} }
@@ -2057,11 +2161,11 @@ func c03OptionSweep(c *Ctx, i int, p *c03Prog, vecs [][]*big.Int, def c03Compile
 	for oi, opt := range opts {
 		opt := opt
 		// quick tier: warnings-off on every program, the other option sets on
-		// every third, the other entry points / call patterns on every fifth
+		// every third, the other entry points / call patterns on every eighth
 		if !c.Thorough() && oi > 0 && oi < nOpt && i%3 != 0 {
 			continue
 		}
-		if !c.Thorough() && oi >= nOpt && i%5 != 1 {
+		if !c.Thorough() && oi >= nOpt && i%8 != 1 {
 			continue
 		}
 		sig, _ := c03OptSig(p, sub, &opt)
@@ -2207,6 +2311,8 @@ func runC03(c *Ctx) error {
 	for round := 0; round < c.N(1, 2); round++ {
 		family = append(family, c03StoreFamily(round)...)
 	}
+	family = append(family, c03WideLitFamily()...)
+	family = append(family, c03LitOpFamily()...)
 	// dead code after a return, in every run (fixed seeds): main and callees
 	for k := 0; k < c.N(6, 60); k++ {
 		family = append(family, c03Generate(NewRNG(uint64(0xDEAD0000+k)), "deadtail", false, true))
